@@ -70,7 +70,7 @@ def make_case(rng, quick=True, force=None):
     solver = str(rng.choice(["full", "full", "auto", "randomized"]))
     seed = int(rng.integers(0, 2 ** 31 - 1))
     cfg = dict(cls=str(cls), n=n, p=p, nlat=nlat, nlon=nlon, center=center, standardize=standardize,
-               use_coslat=use_coslat, weights=None if weights is None else weights.tolist(), solver=solver,
+               use_coslat=use_coslat, pole=bool(use_coslat and nlat and nlat > 1 and rng.random() < 0.4), weights=None if weights is None else weights.tolist(), solver=solver,
                random_state=seed, spectrum=kind, scale=scale, cplx=cplx, k=None,
                X_re=np.real(X).tolist(), X_im=(np.imag(X).tolist() if cplx else None))
     if cls == "ExtendedEOF":
@@ -84,6 +84,14 @@ def make_case(rng, quick=True, force=None):
     return cfg
 
 
+def lat_values(cfg):
+    """latitudes of a coslat case; with cfg["pole"] the grid contains a pole exactly (weight sqrt(cos) ~ 7.8e-9, not zero)"""
+    nlat = cfg["nlat"]
+    if nlat > 1:
+        return np.linspace(-90.0, 75.0, nlat) if cfg.get("pole") else np.linspace(-60.0, 75.0, nlat)
+    return np.array([40.0])
+
+
 def build_input(cfg):
     import xarray as xr
     n, p = cfg["n"], cfg["p"]
@@ -92,7 +100,7 @@ def build_input(cfg):
         X = X + 1j * np.asarray(cfg["X_im"], dtype=float)
     if cfg.get("use_coslat"):
         nlat, nlon = cfg["nlat"], cfg["nlon"]
-        lats = np.linspace(-60.0, 75.0, nlat) if nlat > 1 else np.array([40.0])
+        lats = lat_values(cfg)
         da = xr.DataArray(X.reshape(n, nlat, nlon), dims=("time", "lat", "lon"),
                           coords={"time": np.arange(n), "lat": lats, "lon": np.arange(nlon) * 10.0})
         w = None
@@ -144,7 +152,7 @@ def independent_preprocess(cfg):
         Y = Y / sd
     if cfg.get("use_coslat"):
         nlat, nlon = cfg["nlat"], cfg["nlon"]
-        lats = np.linspace(-60.0, 75.0, nlat) if nlat > 1 else np.array([40.0])
+        lats = lat_values(cfg)
         w = np.sqrt(np.clip(np.cos(np.deg2rad(lats)), 0, 1))
         Y = Y * np.repeat(w, nlon)
     if cfg.get("weights") is not None:
